@@ -91,6 +91,27 @@ def alloc_regions(F, E, b, B):
     return out
 
 
+def is_retype_fn(F, key):
+    """A local function that takes a handle over a MaybeUninit payload and returns a handle over a payload without it
+    (`assume_init*`): the point where the elements are declared initialised."""
+    cb = F.body(key) if key else None
+    if cb is None or not cb.get("inputs") or "output" not in cb:
+        return False
+    i0, o = cb["inputs"][0], cb["output"]
+    return F.tokens(i0)[0] > 0 and F.mentions_adt(i0, MAYBE_UNINIT) and F.tokens(o)[0] > 0 and not F.mentions_adt(o, MAYBE_UNINIT)
+
+
+def retype_blocks(F, b):
+    """Blocks of an (inlined) body at which an uninitialised handle is re-typed as initialised."""
+    out = set()
+    for bi, bl in enumerate(b["blocks"]):
+        t = bl["term"]
+        k = t.get("inlined_call") or (atomics.callee_of(t) if t["k"] == "call" else None)
+        if k and is_retype_fn(F, k):
+            out.add(bi)
+    return out
+
+
 def payload_fields(F, pt):
     """[(field path tuple, field type idx, needs_init)] of the payload type that must be written before a handle exists."""
     t = F.ty(pt)
@@ -147,7 +168,7 @@ def rule_init(ctx, rep, only=None):
             # private helpers are judged inside their callers (virtually inlined): `Allocation::new(len)`, `write_header(..)`, `finish()`
             if not balance.is_api(F, b0) and _has_local_caller(F, b0["key"]):
                 continue
-            b = inline.inlined(F, b0["key"])
+            b = inline.inlined_ctor(F, b0["key"])
             B = cfg.Body(b)
             regs = alloc_regions(F, E, b, B)
             if not regs:
@@ -157,10 +178,23 @@ def rule_init(ctx, rep, only=None):
             if not make_bbs:
                 continue
             dom = B.dominators()
+            # a constructor built on the uninitialised-handle API: the elements are owed at the point where the handle is
+            # re-typed as initialised (`assume_init*`), the rest (the header) when the uninitialised handle comes to exist
+            rt_bbs = retype_blocks(F, b)
+            out_pt = None
+            if rt_bbs and "output" in b0 and F.handle_name(b0["output"]) and not F.mentions_adt(b0["output"], MAYBE_UNINIT):
+                oa = F.adt_arg_types(b0["output"])
+                out_pt = oa[0] if oa else None
             for t, abi, pt in regs:
                 if pt is None:
                     continue
                 fields = payload_fields(F, pt)
+                late = set()
+                if out_pt is not None and F.mentions_adt(pt, MAYBE_UNINIT):
+                    eff = payload_fields(F, out_pt)
+                    if [f[0] for f in eff] == [f[0] for f in fields]:
+                        late = {fp for (fp, _ty, need), (_fp2, _ty2, need2) in zip(eff, fields) if need and not need2}
+                        fields = eff
                 writes = {}  # field path -> list of (bb, how, call term)
                 data_name = F.data_field[1]
                 for bi, t2 in B.calls():
@@ -217,7 +251,7 @@ def rule_init(ctx, rep, only=None):
                         wbi, how, t2 = w[0], w[1], w[2]
                         e0 = w[3] if len(w) > 3 else symx.expr(F, B, t2["args"][0] if how == "write" else copy_args(t2)[1])
                         in_loop = _mentions(e0, "induction") or _in_cycle(B, wbi)
-                        for mb in make_bbs:
+                        for mb in (rt_bbs if fp in late else make_bbs):
                             if in_loop:
                                 # the loop (header = where the induction step lives) must dominate the construction
                                 continue
@@ -258,7 +292,10 @@ def _field_path_of(d, alloc_term, data_name):
         break
     if d[0] != "proj":
         return None
-    root, names = d[1], d[2]
+    root, names = d[1], tuple(d[2])
+    while root[0] == "proj":  # `(&mut (*p).data).slice`: a projection of a projection (a reference taken in between)
+        names = tuple(n for n in root[2] if n != "*") + tuple(n for n in names if n != "*")
+        root = root[1]
     if root[0] != "call":
         return None
     if not names or names[0] != data_name:
@@ -271,7 +308,7 @@ def rule_lenflow(ctx, rep):
     for tag, F, E in ctx.each():
         for name in ("from_header_and_slice", "from_header_and_vec", "from_header_and_iter"):
             for b in F.method("Arc", name):
-                b = inline.inlined(F, b["key"])
+                b = inline.inlined_ctor(F, b["key"])
                 B = cfg.Body(b)
                 regs = alloc_regions(F, E, b, B)
                 ik = b["key"]
@@ -487,7 +524,7 @@ def rule_iterloop(ctx, rep):
     for tag, F, E in ctx.each():
         A = balance.analysis(tag, F, E)
         for b in F.method("Arc", "from_header_and_iter"):
-            b = inline.inlined(F, b["key"])
+            b = inline.inlined_ctor(F, b["key"])
             B = cfg.Body(b)
             regs = alloc_regions(F, E, b, B)
             if len(regs) != 1:
@@ -682,6 +719,9 @@ def _ctor_calls(F, E, e, out):
 def run(ctx, rep):
     balance.rule_parked(ctx, rep)  # a parked caller-supplied value must be handed over before anything can unwind
     rule_init(ctx, rep)
+    from .. import guards
+
+    guards.rules(ctx, rep)  # a partial-initialisation guard is a second destroyer of payload values: never after the owner exists, never ahead of the writes
     rule_lenflow(ctx, rep)
     rule_moveonce(ctx, rep)
     rule_iterloop(ctx, rep)
